@@ -77,7 +77,7 @@ def expected (h : List String) : List String :=
     let n1 := param h 4
     let n2 := param h 5
     [s!"sink 0 {fmtPairs ((range 0 n1).zip (range 1000 n2))}"]
-  | "zippar" =>
+  | "zippar" | "ziplim" =>
     let m := min (param h 4) (param h 5)
     [s!"zippar pairs={m} distinctL={m} distinctR={m} badL=0 badR=0"]
   | _ => ["panic:other:unknown_job"]
@@ -113,7 +113,7 @@ def oracleOf (h : List String) (impl : List String) : Option String :=
   let par := clamp 1 8 (((h.getD 3 "1").toNat?).getD 1)
   if impl == ["blocked"] then some "the job did not terminate within 20 s (blocked)" else
   if impl.any (·.startsWith "panic:") then some s!"the job panicked: {impl}" else
-  if job == "zippar" then
+  if job == "zippar" || job == "ziplim" then
     match impl with
     | [l] =>
       match (words l).drop 1 |>.mapM kv with
